@@ -249,6 +249,8 @@ def build(rng, family):
     if rng.random() < 0.25:
         rng.shuffle(deck.cells)
         deck.tags.add('cells.unordered')
+    if rng.random() < 0.3:
+        M.shuffle_options(deck, rng)
     roll = rng.random()
     if roll < 0.3:
         # importances other than 1: any positive value keeps the cell
